@@ -6,7 +6,7 @@ set -e
 CRATE=$1; shift
 S=/tmp/mutscratch/$(basename $CRATE)
 mkdir -p $S
-rsync -a --delete --exclude target /verif/harness/ $S/harness/
+rsync -a --delete --exclude "target*" /verif/harness/ $S/harness/
 sed -i "s#path = \"/repo\"#path = \"$CRATE\"#" $S/harness/Cargo.toml
 for p in "$@"; do
   VERIF_SCRATCH=$S VERIF_SKIP_LEAN=1 python3 /verif/tools/run_check.py $p --tier quick 2>&1 | tail -4
